@@ -72,7 +72,8 @@ FUNCS = {"float": float, "setattr": _setattr, "str": str, "dict": dict, "os.path
 def _unk(what):
     raise Unknown(what)
 METHODS = {"count", "index", "copy", "bit_length", "get", "items", "keys", "values", "lower", "upper", "endswith", "startswith", "split",
-           "rsplit", "strip", "lstrip", "rstrip", "format", "join", "splitlines", "replace", "find", "rfind", "isdigit", "partition", "rpartition"}
+           "rsplit", "strip", "lstrip", "rstrip", "format", "join", "splitlines", "replace", "find", "rfind", "isdigit", "partition", "rpartition",
+           "encode", "decode", "isascii", "title", "capitalize", "zfill", "ljust", "rjust", "center", "isalpha", "isalnum", "isspace", "expandtabs"}
 MUTATING = {"append", "extend", "insert", "pop", "remove", "sort", "reverse"}
 
 
@@ -449,7 +450,7 @@ class Folder:
                     return getattr(recv, m)(*args, **kw)          # an object supplied by the rule itself (a stand-in for a parser, a graph ..)
                 except PYEXC as x:
                     raise Raised(type(x).__name__)
-            if m in METHODS and isinstance(recv, (list, tuple, int, str, dict)) and hasattr(recv, m):
+            if m in METHODS and isinstance(recv, (list, tuple, int, str, dict, bytes)) and hasattr(recv, m):
                 try:
                     v = getattr(recv, m)(*args, **kw)
                 except PYEXC as x:
